@@ -13,6 +13,10 @@ CLAIMS = {
          'CommonLoop timers under unbounded CBMC contracts: a callback runs only at or after its deadline; one-shot timers leave the heap and release token and record before their callback; persistent timers are re-armed at deadline + interval (no period skipped, no restart from now); the heap is whole whenever user code runs; enable computes the deadline from a clock reading taken during the call; disabling with a stale token is a no-op, a live timer leaves the heap at once and is freed later.',
          'Trusted: printer, CBMC, std heap algorithms as typestate stubs, opaque Cabinet/ObjectPool, clock stub, callback stub. Heap content is abstract; TimerEventImpl and sleep time are not covered.',
          'CBMC function/loop contracts with heap typestate ghost on mechanically extracted C', '6 C02'),
+ 'C03': ('other',
+         'epoll descriptor events under CBMC contracts: enable/disable keep subscriber counts, list membership and kernel registration consistent; kernel interest is exactly the set of conditions with a subscriber (ADD/MOD/DEL chosen correctly); a callback runs only when a subscribed condition is ready, once, a one-shot event being disabled first; dispatch walks a snapshot and calls back only events that are still subscribed at their turn.',
+         'Trusted: printer, CBMC, epoll_ctl / loop hook / callback stubs, vector model. The epoll and select loops (per-pass record lookup, keep-alive) and the select event class are not under contract; their fixes are covered by native scenario drivers only.',
+         'CBMC function/loop contracts with call-order ghosts on mechanically extracted C', '6 C03'),
  'C05': ('other',
          'ThreadPool under CBMC contracts (one thread visible): guarded-by obligations (stop flag, idle counter only under the pool mutex), worker loop (idle count restored on every path, stop flag checked after each wake-up, task body exactly once outside the lock between register/unregister, completion callback posted after the body), initialize (flag cleared before workers exist), priority-first FIFO pop and cancel over all priority levels (bounded domain).',
          'Trusted: printer, CBMC, opaque Cabinet/ObjectPool/std::set/std::thread stubs, one-thread view. Interleavings, liveness and WorkThread are not decided; queue targets bounded to 16 tasks per level.',
